@@ -22,10 +22,54 @@ Fixpoint asserts_at (els : list test_element) (pc : Z) : list assertion :=
   | Trace _ :: r => asserts_at r pc
   end.
 
+(* ---------- the value of an assertion in a machine state, as documented ---------- *)
+(* registers: cpu.a cpu.x cpu.y cpu.sp; flags: cpu.flags.<name> is the flag's bit of the status register
+   (carry 1, zero 2, interrupt_disable 4, decimal 8, overflow 64, negative 128) when set, 0 when clear *)
+Definition n_cpu : text := [99; 112; 117]%N.
+Definition n_flags : text := [102; 108; 97; 103; 115]%N.
+Definition doc_cpu_entries (c : cpu) : symtab :=
+  let p := rP c in
+  let flag (name : text) (b : bool) (mask : Z) := ([n_cpu; n_flags; name], DNum (if b then mask else 0)) in
+  [ ([n_cpu; [115; 112]%N], DNum (rSP c));
+    ([n_cpu; [97]%N], DNum (rA c));
+    ([n_cpu; [120]%N], DNum (rX c));
+    ([n_cpu; [121]%N], DNum (rY c));
+    flag [99; 97; 114; 114; 121]%N (fC p) 1;
+    flag [122; 101; 114; 111]%N (fZ p) 2;
+    flag [105; 110; 116; 101; 114; 114; 117; 112; 116; 95; 100; 105; 115; 97; 98; 108; 101]%N (fI p) 4;
+    flag [100; 101; 99; 105; 109; 97; 108]%N (fD p) 8;
+    flag [111; 118; 101; 114; 102; 108; 111; 119]%N (fV p) 64;
+    flag [110; 101; 103; 97; 116; 105; 118; 101]%N (fN p) 128 ].
+
+(* ram(a): the byte at address a (mod 65536); ram16(a): the little-endian word at a.  A word read at $FFFF
+   leaves the memory: the process aborts *)
+Definition doc_ram_fn (m : ram) (word : bool) (arg : eres) : eres :=
+  match arg with
+  | EVal (Some (SNum a)) =>
+      let a16 := a mod 65536 in
+      if word then
+        if a16 =? 65535 then EPanic
+        else EVal (Some (SNum (ram_read m a16 + 256 * ram_read m (a16 + 1))))
+      else EVal (Some (SNum (ram_read m a16)))
+  | EVal _ => EVal None
+  | EErr x => EErr x
+  | EPanic => EPanic
+  end.
+
+Definition assertion_value (c : cpu) (a : assertion) : eres :=
+  eval_g doc_ram_fn (rM c) (env_with (doc_cpu_entries c) (a_snap a)) (a_expr a).
+
 (* an assertion holds in a machine state when its expression evaluates to something other than zero;
    it fails when the value is zero or there is no value; evaluation may also abort the process *)
-Definition holds (c : cpu) (a : assertion) : Prop := check_assertion c a = CkPass.
-Definition fails (c : cpu) (a : assertion) : Prop := check_assertion c a = CkFail.
+Definition spec_check (c : cpu) (a : assertion) : check :=
+  match assertion_value c a with
+  | EVal (Some (SNum z)) => if z =? 0 then CkFail else CkPass
+  | EVal (Some (SStr _)) => CkPass
+  | EVal None | EErr _ => CkFail
+  | EPanic => CkPanic
+  end.
+Definition holds (c : cpu) (a : assertion) : Prop := spec_check c a = CkPass.
+Definition fails (c : cpu) (a : assertion) : Prop := spec_check c a = CkFail.
 
 (* ---------- declarative ---------- *)
 Definition state_after (c0 : cpu) (k : nat) : cpu := Nat.iter k step c0.
@@ -64,7 +108,7 @@ Inductive sverdict :=
 Fixpoint first_violation (c : cpu) (l : list assertion) : fired :=
   match l with
   | [] => FNone
-  | a :: r => match check_assertion c a with
+  | a :: r => match spec_check c a with
               | CkPass => first_violation c r
               | CkFail => FFail a
               | CkPanic => FPanic
